@@ -199,7 +199,12 @@ def compare(prog, r, answers):
             for off in got:
                 if off not in want:
                     t = by_off.get(off)
-                    if t is None:
+                    if t is None and off in set(r.module_places()) | set(r.sibling_module_places()):
+                        fails.append(({"clause": "extra", "obs": "module-token", "cause": "layout:%s" % prog.lib,
+                                       "query": q["op"]},
+                                      "asked at %s: the token %s:%d naming a module is reported as an occurrence "
+                                      "of the name" % ((ps.ev_key(q),) + off)))
+                    elif t is None:
                         fails.append(({"clause": "extra", "obs": "not-a-token", "cause": "place %s:%d" % off},
                                       "asked at %s: reported place %s is not a name token" % (ps.ev_key(q), off)))
                     elif t["op"] in ps.DECOYS:
